@@ -100,9 +100,9 @@ func (s *Svc) Desc() *grpc.ServiceDesc {
 func (s *Svc) Register(srv *goat.Server) { srv.RegisterService(s.Desc(), nil) }
 
 // Invoke performs a unary call over raw bytes.
-func Invoke(ctx context.Context, cc grpc.ClientConnInterface, name string, req []byte) ([]byte, error) {
+func Invoke(ctx context.Context, cc grpc.ClientConnInterface, name string, req []byte, opts ...grpc.CallOption) ([]byte, error) {
 	out := new(wrapperspb.BytesValue)
-	err := cc.Invoke(ctx, FullMethod(name), &wrapperspb.BytesValue{Value: req}, out)
+	err := cc.Invoke(ctx, FullMethod(name), &wrapperspb.BytesValue{Value: req}, out, opts...)
 	if err != nil {
 		return nil, err
 	}
